@@ -22,7 +22,7 @@ theorem hdrFlat_peer (cfg : HttpCfg) (q : HttpPeer) (hq : q.ok cfg) (ls : List F
       (.head (q.head cfg) (q.proto == bs Gen.http11), rest) := by
   obtain ⟨r', hfeed, h11, hproc⟩ := http_head_roundtrip cfg q hq { env := httpEnv0 cfg } rfl
   unfold hdrFlat
-  rw [hdrLoopC_flines cfg ls { env := httpEnv0 cfg } r' rest hw.wf rfl rfl rfl (by rw [hw.vals]; exact hfeed)]
+  rw [hdrLoopC_flines cfg ls { env := httpEnv0 cfg } r' rest hw.wf rfl rfl rfl rfl (by rw [hw.vals]; exact hfeed)]
   rw [hproc, h11]
 
 theorem hdrSpan_peer (cfg : HttpCfg) (q : HttpPeer) (hq : q.ok cfg) (ls : List FLine) (hw : HttpWire q ls)
